@@ -5,13 +5,13 @@ ENGINES = [
      "kind_free_text": "bounded-exhaustive enumerator of component programs (AST + printer) executed on the real library and compared with a reference interpreter"},
     {"name": "SCHED", "path": "mc/sched.py", "serves_properties": ["C07"],
      "kind_free_text": "stateless exploration of real threads: baton scheduler, sys.settrace scheduling points from an AST scan of the working tree, cooperative locks, iterative preemption bounding, DFS sharded over first deviations"},
-    {"name": "ENUM", "path": "checks/c11.py, checks/c16.py, checks/c17.py, checks/c20.py", "serves_properties": ["C02", "C08", "C10", "C11", "C13", "C16", "C17", "C20"],
+    {"name": "ENUM", "path": "checks/c11.py, checks/c16.py, checks/c17.py, checks/c20.py", "serves_properties": ["C02", "C08", "C09", "C10", "C11", "C12", "C13", "C16", "C17", "C20"],
      "kind_free_text": "bounded-exhaustive input enumeration (full products / all sequences to a length) executed on the real code and compared with a reference function or a stock twin (Python's call binding, importlib, a suffix/pattern predicate, a recursive union model)"},
     {"name": "SEQ", "path": "mc/seq.py", "serves_properties": ["C15", "C16", "C18", "C19"],
      "kind_free_text": "explicit-state BFS over operation histories on the real objects, canonical-state merging, reference model per step, unmerged cross-check"},
 ]
 
-FIX_COMMITS = ["9971f7b (C01)", "a8b3a60 (C05)", "d2c67e0 (C06)", "af8a5f7 (C06)", "34517b9 (C07)", "64d9058 (C07)", "904ce30 (C11)", "3cabaaa (C11)", "16cad7c (C17)", "914c67b (C17)", "3644eb2 (C20)", "62e89ba (C20)", "4c86fa4 (C04)", "7c927a3 (C16)", "3b28f4c (C16)", "63b789b (C16)", "fe25d7c (C08)", "befe4b1 (C08)", "06b04f5 (C08)", "fbc7b08 (C13)", "7b7750f (C13)", "0b2d530 (C13)", "3717859 (C19)", "1162db7 (C19)", "1ef4601 (C02)", "41fcc59 (C02)", "8eee2e6 (C02)", "f691a46 (C03)"]
+FIX_COMMITS = ["9971f7b (C01)", "a8b3a60 (C05)", "d2c67e0 (C06)", "af8a5f7 (C06)", "34517b9 (C07)", "64d9058 (C07)", "904ce30 (C11)", "3cabaaa (C11)", "16cad7c (C17)", "914c67b (C17)", "3644eb2 (C20)", "62e89ba (C20)", "4c86fa4 (C04)", "7c927a3 (C16)", "3b28f4c (C16)", "63b789b (C16)", "fe25d7c (C08)", "befe4b1 (C08)", "06b04f5 (C08)", "fbc7b08 (C13)", "7b7750f (C13)", "0b2d530 (C13)", "3717859 (C19)", "1162db7 (C19)", "1ef4601 (C02)", "41fcc59 (C02)", "8eee2e6 (C02)", "f691a46 (C03)", "cc96ad7 (C10)", "12bc436 (C10)", "7b37d74 (C09)", "e4cffa4 (C09)", "0d05afb (C09)", "1fda812 (C12)"]
 
 _PENDING = "check not built yet in this session (build order: DESIGN.md section 6); it will be decided by the same bounded-exhaustive technique"
 
@@ -90,13 +90,21 @@ CHECKS = {
                 "is run through the real render_dependencies and compared byte-for-byte and type-exactly with a reference of the documented insertion rule; the middleware is run over all <= 2-token bodies x content types x streaming x sync/async.",
         "note": "tag strings are taken from the implementation (their content is C04); </HEAD> / </BODY> accepted under either case reading; tag strings containing end-tag or placeholder look-alikes are not generated",
     },
+    "C09": {
+        "engine": "ENUM",
+        "design_ref": "DESIGN.md 2.4, 3/C09",
+        "technique": "bounded-exhaustive fragment sequences on the real lexer vs stock DebugLexer and a quote-aware reference lexer",
+        "text": "Every concatenation of <= 4 (quick) / <= 5 (thorough) of 23 lexer-relevant fragments, plus all length-5/6 sequences over an 11-fragment core, is lexed by parse_template under both multiline_tags settings and checked for exact partition, "
+                "contents and line numbers, for equality with stock DebugLexer where no tag is quoted and with a quote-aware reference lexer otherwise; the public Template() route must fail with the same message, token and template_debug as Django's Parser on the reference tokens.",
+        "note": "Django 5.1 DebugLexer as stock; backslash escapes honoured; single-line mode with a newline-crossing rescan and unterminated tags checked for the invariants only",
+    },
     "C10": {
         "engine": "ENUM + PROG",
         "design_ref": "DESIGN.md 2.4, 3/C10",
         "technique": "differential exhaustive enumeration: stock template families in an unpatched twin process vs the patched process; split (extends/include) programs vs the flattened program",
         "text": "(a) every stock template family with <= N nodes (single / extends+block+block.super / include with-only; if/for/with/filter/autoescape/firstof/cycle, simple_tag with quoted argument, inclusion_tag, ill-formed members) is executed in a "
                 "process that never imports django_components and in the patched process, both engine.debug values x 3 contexts; token streams, outputs, exception class/message/debug line and the Context state after render must be identical. "
-                "(b) see checks/c10b.py when present in evidence.",
+                "(b) every program of the C01 profile (<= N nodes) x every split of one template (two in thorough) into base/child via extends+block (no override / override / block.super) or into an include is rendered and must equal the flattened program, both modes.",
         "note": "(a) excludes the two documented lexer differences (`%}` inside quotes, newline inside a tag); Django 5.1 as installed",
     },
     "C11": {
@@ -107,6 +115,14 @@ CHECKS = {
                 "argument sequence up to length 4-5 over matching, duplicate, unknown, non-identifier, keyword and spread-produced keys. Each pair runs on the real tag machinery on both validation paths "
                 "(and through @template_tag + Template, and with the built-in tags' signatures); acceptance and complete bindings are compared with Python executing the literal equivalent call on the same function.",
         "note": "integer literal values; list spread after a plain keyword accepted under either reading; **kwargs order and messages not compared; fallback path reached via a callable without __code__; thorough covers L=5 only for signatures <= 3 params",
+    },
+    "C12": {
+        "engine": "ENUM",
+        "design_ref": "DESIGN.md 2.4, 3/C12",
+        "technique": "bounded-exhaustive syntax-alphabet strings through parse_tag/Template, token mutations, serialise round trip, settrace step counts on pumped families",
+        "text": "All strings of <= 4 / <= 5 tokens over the 19-token syntax alphabet go through parse_tag+compile and 7 tag heads, all <= 4 / <= 5-token template strings through Template(), plus every single-token mutant of a generated family of documented-syntax tags: "
+                "the outcome must be a return or TemplateSyntaxError (2 s hang alarm, crashes keyed by call site); the serialise/re-parse fixpoint is checked on every generated tag, and executed-line counts over ~7.8 k pumping and nesting families for k up to 128 / 256 must grow at most quadratically.",
+        "note": "no random sampling; regex-engine time is guarded by alarms only; CPython 3.12 / Django 5.1, default tag formatter",
     },
     "C13": {
         "engine": "ENUM",
